@@ -26,6 +26,10 @@ def yOf : Pt → Res Int
   | .jac P => pjY P
   | .aff A => .ok A.y
 
+/-- the point object of a LOADED key: what `VerifyingKey.from_string` / `from_der` / `from_pem` hand to `from_public_point`:
+`ellipticcurve.PointJacobi(curve.curve, x, y, 1, order)` (generator flag False) -/
+def loadedKeyPoint (c : Affine.Crv) (x y : Int) : Pt := .jac ⟨crvOf c, x, y, 1, some c.n, false⟩
+
 /-- every multiplication is modelled on a fresh object (`pjMul`, `pjMulAdd`: table state `[]`): building the generator's
 table is idempotent and does not change any value returned later, so this is also what a warmed-up object returns -/
 def ops (c : Affine.Crv) : PointOps Pt where
